@@ -123,9 +123,49 @@ def handleSt (st : Option TdfSt) (cmd : String) (args : List V) : Option (Option
                         .int s.nEntries, .int (lenLive s)])
   | _, _ => none
 
-def handleLine (st : Option TdfSt) (line : String) : Option TdfSt × String :=
+/-- mode machine commands (C08): `(mode.init #file)`, `(mode.op allow|enter|exit)`, `(mode.read 0|1)`,
+    `(mode.mut (tdf.add …))`; each answers `(raised? disk-changed? handle inCtx mode)` -/
+def opOf (cmd : String) (args : List V) : Option Op :=
+  match cmd, args with
+  | "tdf.add", [blk, comment, now] => do
+      pure (.add (← blkArg? (← blk.list?)) (← comment.nats?) (← now.int?))
+  | "tdf.remove", [t, now] => do pure (.remove (← t.nat?) (← now.int?))
+  | "tdf.replace", [blk, comment, now] => do
+      pure (.replace (← blkArg? (← blk.list?)) (← optStr comment) (← now.int?))
+  | "tdf.set", [blk, now] => do pure (.set (← blkArg? (← blk.list?)) (← now.int?))
+  | _, _ => none
+
+def mstV (before : MSt) (r : MSt × Bool) : V :=
+  .list [.int (if r.2 then 1 else 0), .int (if r.1.disk == before.disk then 0 else 1),
+         .int (match r.1.handle with | none => -1 | some false => 0 | some true => 1),
+         .int (if r.1.inCtx then 1 else 0), .int (if r.1.mode then 1 else 0), .hex r.1.disk]
+
+def handleMode (ms : Option MSt) (cmd : String) (args : List V) : Option (Option MSt × V) :=
+  match cmd, args with
+  | "mode.init", [.hex b] => some (some (MSt.init b), .list [.sym "ok"])
+  | "mode.op", [.sym "allow"] => do let s ← ms; let r := mstep s .allowWrite; pure (some r.1, mstV s r)
+  | "mode.op", [.sym "enter"] => do let s ← ms; let r := mstep s .enter; pure (some r.1, mstV s r)
+  | "mode.op", [.sym "exit"] => do let s ← ms; let r := mstep s .exit; pure (some r.1, mstV s r)
+  | "mode.read", [.int i, .int n] => do let s ← ms; let r := mstep s (.read (i != 0) (n != 0)); pure (some r.1, mstV s r)
+  | "mode.mut", [.list (.sym c :: a), .int i] => do
+      let s ← ms; let op ← opOf c a
+      let r := mstep s (.mutate op (i != 0)); pure (some r.1, mstV s r)
+  | _, _ => none
+
+structure DrvSt where
+  tdf : Option TdfSt := none
+  mode : Option MSt := none
+
+def handleLine (st0 : DrvSt) (line : String) : DrvSt × String :=
+  let st := st0.tdf
+  let wrap (p : Option TdfSt × String) : DrvSt × String := ({ st0 with tdf := p.1 }, p.2)
   match V.parse line with
   | some (.list (.sym cmd :: args)) =>
+    if cmd.startsWith "mode." then
+      match handleMode st0.mode cmd args with
+      | some (m', v) => ({ st0 with mode := m' }, v.render)
+      | none => (st0, "(bad-op)")
+    else wrap <|
     if cmd.startsWith "tdf." then
       match handleSt st cmd args with
       | some (st', v) => (st', v.render)
@@ -151,9 +191,9 @@ def handleLine (st : Option TdfSt) (line : String) : Option TdfSt × String :=
         match handle cmd args with
         | some v => (st, v.render)
         | none => (st, "(bad-op)")
-  | _ => (st, "(bad-parse)")
+  | _ => (st0, "(bad-parse)")
 
-partial def loop (hin hout : IO.FS.Stream) (st : Option TdfSt) : IO Unit := do
+partial def loop (hin hout : IO.FS.Stream) (st : DrvSt) : IO Unit := do
   let line ← hin.getLine
   if line.isEmpty then return ()
   let (st', out) := handleLine st line
@@ -162,4 +202,4 @@ partial def loop (hin hout : IO.FS.Stream) (st : Option TdfSt) : IO Unit := do
   loop hin hout st'
 
 def main : IO Unit := do
-  loop (← IO.getStdin) (← IO.getStdout) none
+  loop (← IO.getStdin) (← IO.getStdout) {}
